@@ -39,6 +39,8 @@ def run_cli(cmd, text, timeout_s, workdir, tag):
     try:
         p = subprocess.run(cmd + [path], capture_output=True, text=True, timeout=timeout_s + 5)
         out = p.stdout.strip()
+        if not out and "timeout" in (p.stderr or "").lower():
+            out = "timeout"
     except subprocess.TimeoutExpired:
         out = "timeout"
     dt = time.time() - t
@@ -137,7 +139,65 @@ def int_consts(fmls):
     return list(out.values())
 
 
-def refute_query(hyps, goal, rounds=2, cap=300, bound=4):
+def _match(pat, term, binding):
+    """syntactic first-order matching of a quantifier pattern (with de Bruijn variables) against a ground term"""
+    if z3.is_var(pat):
+        idx = z3.get_var_index(pat)
+        if idx in binding:
+            return binding if binding[idx].eq(term) else None
+        if pat.sort() != term.sort():
+            return None
+        b = dict(binding)
+        b[idx] = term
+        return b
+    if not z3.is_app(pat) or not z3.is_app(term):
+        return None
+    if pat.decl().kind() == z3.Z3_OP_UNINTERPRETED:
+        if not pat.decl().eq(term.decl()):
+            return None
+    elif pat.decl().kind() != term.decl().kind() or pat.num_args() != term.num_args():
+        return None
+    if pat.num_args() != term.num_args():
+        return None
+    for pc, tc in zip(pat.children(), term.children()):
+        binding = _match(pc, tc, binding)
+        if binding is None:
+            return None
+    return binding
+
+
+def pattern_instances(q, ground_terms, cap=200):
+    """instances of a universally quantified formula obtained by matching its (single-term) patterns against ground terms"""
+    out = []
+    n = q.num_vars()
+    for pi in range(q.num_patterns()):
+        pat = q.pattern(pi)
+        if pat.num_args() != 1:
+            continue
+        p0 = pat.arg(0)
+        for t in ground_terms:
+            b = _match(p0, t, {})
+            if b is None or len(b) != n:
+                continue
+            args = [b[n - 1 - i] for i in range(n)]      # substitute_vars takes the innermost variable first
+            try:
+                inst = z3.simplify(z3.substitute_vars(q.body(), *[b[i] for i in range(n)]))
+            except z3.Z3Exception:
+                continue
+            out.append(inst)
+            if len(out) >= cap:
+                return out
+    return out
+
+
+def all_app_terms(fmls):
+    acc, seen = [], set()
+    for f in fmls:
+        _subterms(f, acc, seen)
+    return [t for t in acc if t.decl().kind() == z3.Z3_OP_UNINTERPRETED and t.num_args() > 0 and not _has_var(t)]
+
+
+def refute_query(hyps, goal, rounds=2, cap=600, bound=4):
     """Quantifier-free query for the refuting mode: negated goal skolemised, quantified hypotheses instantiated
     only at the index terms of the negated goal, integer constants bounded to steer towards small models.
     `sat` = candidate counter-model; `unsat`/`unknown` mean nothing (bounds, dropped instances)."""
@@ -157,16 +217,29 @@ def refute_query(hyps, goal, rounds=2, cap=300, bound=4):
     terms = index_terms(gground)
     if not terms:
         terms = index_terms(ground)[:6]
+    domain = [z3.IntVal(v) for v in range(-1, bound + 2)] if bound is not None else None
     seen_inst, new_all = set(), []
     for _ in range(rounds):
         new = []
+        app_terms = all_app_terms(ground + gground + new_all)
         for q in list(quants):
             if not q.is_forall():
                 continue
             nv = q.num_vars()
             if any(q.var_sort(i) != z3.IntSort() for i in range(nv)):
+                # axioms over reals (exp/log/sqrt ...): instantiate by matching their patterns against the ground terms
+                for inst in pattern_instances(q, app_terms):
+                    key = ("pat", q.get_id(), inst.get_id())
+                    if key in seen_inst or z3.is_true(inst):
+                        continue
+                    seen_inst.add(key)
+                    for p in flatten([inst]):
+                        (quants if z3.is_quantifier(p) else new).append(p)
                 continue
-            for cnt, tup in enumerate(itertools.product(terms, repeat=nv)):
+            # small-model search: with every integer constant confined to [-1, bound] the integer-quantified hypotheses are
+            # instantiated over the whole index domain (exhaustive for the model sizes considered), not only at goal terms
+            pool = (domain + [t for t in terms if not z3.is_int_value(t)]) if domain is not None and nv <= 2 else terms
+            for cnt, tup in enumerate(itertools.product(pool, repeat=nv)):
                 if cnt > cap:
                     break
                 key = (q.get_id(),) + tuple(t.get_id() for t in tup)
@@ -294,7 +367,7 @@ def discharge(obls, timeout_s=20, jobs=16, all_backends=False, keep_dir=None, re
         for i, o in enumerate(obls):
             try:
                 if o.sat_expected:
-                    texts[i] = to_smt2(o.hyps)
+                    texts[i] = to_smt2([z3.simplify(h) for h in o.hyps])
                 else:
                     g = z3.simplify(o.goal)
                     if z3.is_true(g):
@@ -303,7 +376,8 @@ def discharge(obls, timeout_s=20, jobs=16, all_backends=False, keep_dir=None, re
                     if z3.is_false(g) and not o.hyps:
                         verdicts[i] = Verdict(o.name, o.kind, "refuted", "structural", 0.0, detail=o.note)
                         continue
-                    texts[i] = to_smt2(list(o.hyps) + [z3.Not(o.goal)])
+                    # beta-reduce selects over lambda terms (element-wise numpy expressions) before the query leaves the process
+                    texts[i] = to_smt2([z3.simplify(h) for h in o.hyps] + [z3.simplify(z3.Not(o.goal))])
             except Exception as ex:  # translation problem -> undecided, never a violation
                 verdicts[i] = Verdict(o.name, o.kind, "unknown", "-", 0.0, detail=f"translation: {ex!r}")
 
@@ -346,12 +420,37 @@ def discharge(obls, timeout_s=20, jobs=16, all_backends=False, keep_dir=None, re
                         verdicts[i] = Verdict(obls[i].name, obls[i].kind, "refuted", bname, t_used[i], model=out)
 
         todo = [i for i in range(n) if verdicts[i] is None]
-        # phase A: z3 5.1 on the plain query
+        raw_texts = {}
+        # phase A: z3 5.1 on the simplified (beta-reduced) query
         prove_phase(todo, [("z3-5.1", z3new)], lambda i: texts[i])
-        # phase R: what is left is first posed in refuting mode (a counter-model, if there is one, comes quickly)
+        # phase B: everything that is left, in other formulations and on the other back ends - a true obligation must not
+        # depend on one solver's heuristics (verdicts must not flip under load)
+        left = [i for i in todo if verdicts[i] is None]
+        for i in left:
+            try:
+                raw_texts[i] = to_smt2(list(obls[i].hyps) + [z3.Not(obls[i].goal)])
+            except Exception:
+                pass
+        prove_phase([i for i in left if i in raw_texts], [("z3-5.1(raw)", z3new)], lambda i: raw_texts[i])
+        prove_phase(left, [("cvc5", cvc5), ("z3-4.8", z3old)], lambda i: texts[i])
+        # phase C: goal-directed ground instances added (proving from a subset of instances is sound)
+        left = [i for i in todo if verdicts[i] is None]
+        inst_text = {}
+        for i in left:
+            try:
+                ground, quants = instances(obls[i].hyps, obls[i].goal)
+                inst_text[i] = to_smt2([z3.simplify(h) for h in obls[i].hyps] + ground)
+            except Exception as ex:
+                detail[i].append(f"instantiation-error:{ex!r}"[:120])
+        prove_phase([i for i in left if i in inst_text], [("z3-5.1+inst", z3new), ("cvc5+inst", cvc5)], lambda i: inst_text[i])
+        # phase R: refuting mode for what no back end could prove.
+        #   bound=4   : small-model search, integer-quantified hypotheses instantiated over the whole index domain, real axioms by
+        #               pattern matching -> `sat` is reported as a refutation (with the model)
+        #   bound=None: goal-directed partial instantiation only -> `sat` is merely a *candidate* (may ignore other instances);
+        #               it directs the native search and is never reported as a violation by itself
         left = [i for i in todo if verdicts[i] is None]
         if refute:
-            for bound in (4, None):          # small models first, then unbounded
+            for bound in (4, None):
                 refute_text = {}
                 cur = [i for i in left if verdicts[i] is None]
                 for i in cur:
@@ -364,29 +463,12 @@ def discharge(obls, timeout_s=20, jobs=16, all_backends=False, keep_dir=None, re
                     except Exception as ex:
                         detail[i].append(f"refute-build-error:{ex!r}"[:120])
                 cur = [i for i in cur if i in refute_text]
-                for i, r, out, dt in run_phase(cur, z3new, "refute", lambda i: refute_text[i], min(timeout_s, 10)):
+                for i, r, out, dt in run_phase(cur, z3new, "refute", lambda i: refute_text[i], min(timeout_s, 15)):
                     detail[i].append(f"refute(bound={bound})-z3-5.1:{r.split(':')[0]}")
                     t_used[i] += dt
                     if r == "sat":
-                        verdicts[i] = Verdict(obls[i].name, obls[i].kind, "refuted", "z3-5.1(ground)", t_used[i], model=out)
-        # obligations of a function that already has a refuted obligation are moot: do not spend the ladder on them
-        bad_fns = {obls[i].fn for i in range(n) if verdicts[i] is not None and verdicts[i].status == "refuted" and obls[i].fn}
-        for i in todo:
-            if verdicts[i] is None and obls[i].fn in bad_fns and obls[i].fn not in ("lemma", "struct"):
-                verdicts[i] = Verdict(obls[i].name, obls[i].kind, "skipped", "-", t_used[i],
-                                      detail="not pursued: another obligation of this function is refuted")
-        # phase B: other back ends on the plain query
-        prove_phase(todo, [("cvc5", cvc5), ("z3-4.8", z3old)], lambda i: texts[i])
-        # phase C: goal-directed ground instances added (proving from a subset of instances is sound)
-        left = [i for i in todo if verdicts[i] is None]
-        inst_text = {}
-        for i in left:
-            try:
-                ground, quants = instances(obls[i].hyps, obls[i].goal)
-                inst_text[i] = to_smt2(list(obls[i].hyps) + ground)
-            except Exception as ex:
-                detail[i].append(f"instantiation-error:{ex!r}"[:120])
-        prove_phase([i for i in left if i in inst_text], [("z3-5.1+inst", z3new), ("cvc5+inst", cvc5)], lambda i: inst_text[i])
+                        verdicts[i] = Verdict(obls[i].name, obls[i].kind, "refuted" if bound is not None else "candidate",
+                                              "z3-5.1(small-model)" if bound is not None else "z3-5.1(goal-directed)", t_used[i], model=out)
         for i in range(n):
             if verdicts[i] is None:
                 verdicts[i] = Verdict(obls[i].name, obls[i].kind, "unknown", "-", t_used[i])
